@@ -103,6 +103,9 @@ def mergedWeight (ps : List Profile) (k : StackKey) : List Int :=
 
 def isZeroV (v : List Int) : Bool := v.all (· == 0)
 
+/-- per-sample-type totals of a profile (element-wise int64 sum over all samples). -/
+def totals (p : Profile) : List Int := sumV p.sampleType.length (p.samples.map (·.values))
+
 /-! ### header rules (documented on `profile.Merge`) -/
 
 /-- earliest non-zero time; 0 when every input says 0. -/
